@@ -932,7 +932,9 @@ package op
 //@        && result.JwksURI == endpointAbs(endpoints.JwksURI, result.Issuer)
 //@        && result.DeviceAuthorizationEndpoint == endpointAbs(endpoints.DeviceAuthorization, result.Issuer)
 //@   ensures request-object: result.RequestParameterSupported == config.RequestObjectSupported()
+//@   ensures grants-are-the-dispatched-ones: result.GrantTypesSupported == callres("op.GrantTypes", 0) && callarg("op.GrantTypes", 0) == config
 //@ func op.CreateDiscoveryConfig
+//@   ensures grants-are-the-dispatched-ones: result.GrantTypesSupported == callres("op.GrantTypes", 0) && callarg("op.GrantTypes", 0) == config
 //@   requires valid(config) && valid(storage)
 //@   ensures issuer: result != nil && result.Issuer == callres("op.IssuerFromContext", 0)
 //@   ensures served-authorization: result.AuthorizationEndpoint == endpointAbs(config.AuthorizationEndpoint(), result.Issuer)
